@@ -304,6 +304,7 @@ void pbt_run(const Case& cs, Ctx& ctx) {
       // bulk insertion of container o (possibly the container itself) at the end / at a position
       bool self = c == o;
       if (self && pf != P_C04) { ctx.count("skipped"); continue; }  // self-insertion belongs to C04
+      if (m.size() + M[o].size() > 600) { ctx.count("skipped_big"); continue; }   // repeated bulk insertion doubles the sizes: keep the case within its memory budget
       if (self && ctx.excluded("C04-list-insert-self")) continue;
       std::vector<Entry> src; { LedgerPause lp; src = M[o]; }
       if (self && m.size() >= 2) ctx.label("self_arg_on_size>=2");
